@@ -79,6 +79,7 @@ from apischema.types import AnyType, NoneType, Undefined, UndefinedType
 from apischema.typing import (
     get_args,
     get_origin,
+    is_literal,
     is_new_type,
     is_type,
     is_type_var,
@@ -123,6 +124,9 @@ def expected_class(tp: AnyType) -> type:
         return collections.abc.Mapping
     elif is_type(origin):
         return origin
+    elif is_literal(tp):
+        # isinstance accepts a tuple of classes
+        return tuple({v.__class__ for v in get_args(tp)})  # type: ignore
     elif is_new_type(origin):
         return expected_class(origin.__supertype__)
     elif is_type_var(origin) or origin is Any:
